@@ -646,7 +646,7 @@ func c18FreePort() int {
 	return p[0]
 }
 
-var c18EarlyKinds = []string{"metrics-addr-in-use", "upstream-unknown-scheme", "upstream-unreadable-ca", "dup-upstream-tag", "missing-domain-file", "rule-unknown-upstream", "rule-unknown-domain-set", "cache-bad-ip-marker"}
+var c18EarlyKinds = []string{"metrics-addr-in-use", "upstream-unknown-scheme", "upstream-unreadable-ca", "dup-upstream-tag", "dup-upstream-tag-quic", "dup-upstream-tag-h3", "missing-domain-file", "rule-unknown-upstream", "rule-unknown-domain-set", "cache-bad-ip-marker"}
 
 var c18ListenerKinds = []string{"udp", "tcp", "gnet", "tls", "http", "fasthttp", "https", "quic"}
 
@@ -853,6 +853,14 @@ func c18RouterChild(args []string) int {
 		cfg.Upstreams = append(cfg.Upstreams, uc)
 	case "dup-upstream-tag":
 		cfg.Upstreams = append(cfg.Upstreams, cfg.Upstreams[0])
+	case "dup-upstream-tag-quic", "dup-upstream-tag-h3":
+		// the upstream kinds that open a (UDP) socket as soon as they are built: whatever was built
+		// before the duplicate was noticed has to be closed again
+		uc := router.UpstreamConfig{Tag: "twice", Addr: "quic://127.0.0.1:8853"}
+		if early == "dup-upstream-tag-h3" {
+			uc.Addr = "h3://127.0.0.1:8443/dns-query"
+		}
+		cfg.Upstreams = append(cfg.Upstreams, uc, uc)
 	case "missing-domain-file":
 		cfg.DomainSets = append(cfg.DomainSets, router.DomainSetConfig{Tag: "ghost", Files: []string{filepath.Join(dir, "no-such-list.txt")}})
 	case "rule-unknown-upstream":
@@ -932,12 +940,24 @@ again:
 		time.Sleep(100 * time.Millisecond)
 		fmt.Println("COUNT parent_context_cancelled_before_close 1")
 	}
+	// a client of the metrics endpoint that is stuck in the middle of a request (header sent, the
+	// announced body never comes): closing the router does not wait for it
+	var mc net.Conn
+	if cn, err := net.DialTimeout("tcp", cfg.Metrics.Addr, time.Second); err == nil {
+		mc = cn
+		mc.Write([]byte("POST /metrics HTTP/1.1\r\nHost: x\r\nContent-Length: 10\r\n\r\n"))
+		time.Sleep(50 * time.Millisecond)
+		fmt.Println("COUNT stalled_metrics_clients_at_close 1")
+	}
 	done := make(chan struct{})
 	t0 := time.Now()
 	go func() { rr.closeFn(); close(done) }()
 	select {
 	case <-done:
 		fmt.Printf("COUNT router_close_ms %d\n", time.Since(t0).Milliseconds())
+		if mc != nil {
+			mc.Close() // (the harness's own socket must not show up in the census below)
+		}
 	case <-time.After(5 * time.Second):
 		fmt.Println("VIOL router-close-hangs closing the router has not returned after 5 s")
 		return 0
